@@ -870,7 +870,8 @@ def _dipole_vector(grid, points, decimals=9, nodes=None):
         """Return [min, max]-index of cells in which points resides."""
         vmin = min(points[:, i])
         vmax = max(points[:, i])
-        return [max(0, np.where(vmin < np.r_[vector, np.inf])[0][0]-1),
+        return [min(vector.size-2,
+                    max(0, np.where(vmin < np.r_[vector, np.inf])[0][0]-1)),
                 max(0, np.where(vmax < np.r_[vector, np.inf])[0][0]-1)]
 
     rix = min_max_ind(nodes_x, 0)
